@@ -14,6 +14,19 @@ def init():
     from bridge_env import Card, Suit
     _Card, _Suit = Card, Suit
     CARDS = [Card(i % 13 + 2, Suit(i // 13 + 1)) for i in range(52)]
+    global _ORDER
+    _ORDER = None
+
+
+_ORDER = None
+
+
+def sorted_order():
+    """universe indices in the order the REAL sorted() puts the real cards (uses the repository's Card.__lt__)"""
+    global _ORDER
+    if _ORDER is None:
+        _ORDER = [CARDS.index(c) for c in sorted(CARDS)]
+    return _ORDER
 
 
 def is_card(v):
